@@ -71,7 +71,16 @@ PROPS = {
             "ShrinkToFit rects always containing a point of the real Bound() (ends, midpoint, one ulp inside, random) with extents 0 … 3; "
             "c06lcell: loops / star loops / polygons of radius 0.25 .. 1.45 rad (long edges spanning several cube faces) under coarse coverer "
             "configurations (InteriorCovering asks ContainsCell, Covering asks IntersectsCell: ops cov) and pred lines (ContainsCell / IntersectsCell "
-            "judged against points exactly in the cell) for cells of level 0..7 at and next to loop vertices",
+            "judged against points exactly in the cell) for cells of level 0..7 at and next to loop vertices; "
+            "family D60 (every 8th iteration of c06idx, harness/c06d60.go): a shape edge (a, b) with b = -a up to 0..3 ulps per coordinate "
+            "(a with two or three coordinates of nearly equal magnitude so that the quantisation noise a+b can be nearly parallel to a; "
+            "'aligned' or independent ulp counts; exactly antiparallel pairs skipped) or b = a up to a few multiples of 2^-1074 in a zero / "
+            "subnormal coordinate; the generator computes the EXACT plane a x b (math/big) and, itself, the pre-repair float normal "
+            "fl((a+b) x (b-a)), walks up to 3*10^5 leaf-grid columns along the exact line on the face of a point 60..120 degrees from a "
+            "for a leaf-grid vertex between the two lines (margins 1.5e-14), puts 14 filler edges into the leaf cell X that only the exact "
+            "line clips (forces level 30) and asks for the crossings of a query edge across the EXACT edge inside X (+ a tiny edge elsewhere "
+            "in X + a far edge); emitted regardless of any library answer: c04cross, c04bclip on all six faces (model = implementation in "
+            "the exact fallback of PointCross), every third sample c04idx (invariant I2)",
     "nontrivial": lambda l: (l.startswith("c06shape") and " 0 0 - - - -" not in l and " 0 1 - " not in l)
                             or ((l.startswith("c06loc") or l.startswith("c06seek")) and not l.split(" ")[1] == "-")
                             or l.startswith("c06pcpath") or l.startswith("c06pcnext")
@@ -359,8 +368,8 @@ PROPS = {
     "C03": {
         # (generator, quick n, thorough n); c03 emits ~1.6 op lines per unit of n (quads, NewEdgeCrosser fields, angles, histories)
         "generators": [("c03", 12000, 300000)],
-        "translators": ["translator_c02"],
-        "modules": ["S2.Crossing", "S2.Crosser", "S2.Pred", "S2.Exact", "S2.STUV", "S2.F64", "S2.BigF"],
+        "translators": ["translator_c02", "translator_c16"],
+        "modules": ["S2.Crossing", "S2.PointCross", "S2.Crosser", "S2.Pred", "S2.Exact", "S2.STUV", "S2.F64", "S2.BigF"],
         "rule": "quadruples (a,b,c,d) of unit vectors: fixed edge AB general / tiny (separations 2^-k down to subnormal) / a few ulps / "
                 "long (near 180 degrees, nearly antipodal) / nearly antipodal along a Pythagorean direction with an EXACTLY cancelling float "
                 "(a+b)x(b-a) although a x b != 0 (finding D48; 10 integer directions, axis permutations, sign flips, C and D across the arc "
